@@ -115,6 +115,7 @@ struct TypecheckPackagesResult {
     genv: GlobalTypeEnv,
     diagnostics: Diagnostics,
     graph: packages::PackageGraph,
+    order: Vec<String>,
     artifacts: HashMap<String, PackageArtifact>,
 }
 
@@ -304,6 +305,7 @@ fn typecheck_packages(
         genv,
         diagnostics,
         graph,
+        order,
         artifacts: artifacts_by_name,
     })
 }
@@ -317,6 +319,7 @@ pub fn compile(path: &Path, src: &str) -> Result<Compilation, CompilationError> 
         genv,
         mut diagnostics,
         graph,
+        order,
         artifacts,
         ..
     } = typecheck;
@@ -341,7 +344,7 @@ pub fn compile(path: &Path, src: &str) -> Result<Compilation, CompilationError> 
     let gensym = Gensym::new();
 
     let mut package_cores = Vec::new();
-    for name in graph.discovery_order.iter() {
+    for name in order.iter() {
         let package = graph
             .packages
             .get(name)
